@@ -161,11 +161,16 @@ class Prop(BaseProp):
         mod, b, mode = self.build(idx, rng)
         lay = Layout(rng, comments=rng.choice([0.0, 0.3, 0.8]), wild=rng.choice([0.0, 0.3]), case="random", docforms=rng.choice([0.0, 0.0, 0.3]))
         text = render(mod, lay)
-        exp = expected_entries(mod)
+        # one case in twelve uses the public API the way the project's examples do: Documenter(file, title, module) with the
+        # settings object it makes for itself (its only documented difference to the packaged defaults is the keyword-arguments trigger)
+        api_default = idx % 12 == 3
+        exp = expected_entries(mod, trigger=":param **kwargs:") if api_default else expected_entries(mod)
         res.sig = sig_hash(mod.shape())
         res.nontrivial = len(exp) >= 2
         res.count("entries_expected", len(exp))
         res.see("mode", mode.split(":")[0])
+        if api_default:
+            res.count("cases_with_the_default_settings_object")
         for it in mod.walk():
             res.see("item_kinds", it.kind + ("+doc" if it.doc is not None and it.kind != "dangling" else ""))
         if lay.stats["line_comments"] + lay.stats["bracket_comments"]:
@@ -173,7 +178,7 @@ class Prop(BaseProp):
         res.count("annotation_comments", lay.stats["line_comments"] + lay.stats["bracket_comments"])
         if self.settings is None:
             self.settings = runner.make_settings()
-        o, doc = runner.document_text(text, runner.make_settings())
+        o, doc = runner.document_text(text, "api-default" if api_default else runner.make_settings())
         wit = {"text": text, "expected": [e.brief() for e in exp]}
         if not o.ok:
             res.violate(o.crash_class() or f"exit:{o.exit_code}", f"{type(o.exc).__name__}: {str(o.exc)[:300]}", wit)
